@@ -236,12 +236,16 @@ theorem hk_guard (s : Sys F) (now j : Nat) (l l' : FLink F) (hl : s.links[j]? = 
   cases hl'
   exact hkOp_guard _ _ _ _ _ _ _ _
 
-/-- **`setCfg` / `crit` / `failNext`** (any event that is not an arm of the loop): nothing. -/
+/-- **`setCfg` / `crit` / `failNext` / `failBind` / `stamp`** (any event that is not an arm of the loop): nothing
+the guard sees — a verdict stamp rewrites `weak` / `loss_degraded` / `cc_backing_off` / `cc_target_bps` only. -/
 theorem cfg_guard (s : Sys F) (e : Ev) (he : isArm e = false) (j : Nat) (l l' : FLink F)
     (hl : s.links[j]? = some l) (hl' : (step s e).1.links[j]? = some l') : GKeep l l' := by
-  rw [cfg_links s e he, hl] at hl'
+  obtain ⟨x, hx, h⟩ := cfg_links s e he j l hl
+  rw [hx] at hl'
   cases hl'
-  exact GKeep.refl _
+  rcases h with rfl | ⟨weak, ld, ccb, cct, rfl⟩
+  · exact GKeep.refl _
+  · exact gk
 
 /-! ## 4. `uplink` -/
 
